@@ -16,3 +16,6 @@ pub use transformed_hamiltonian::TransformedHamiltonian;
 pub use transformed_hamiltonian::{
     KineticEnergyKind, TransformedPoint, TransformedPointStatsOptions,
 };
+
+#[cfg(nuts_rs_verif)]
+pub use transformed_hamiltonian::VerifPoint;
